@@ -191,6 +191,13 @@ def run(c, chk):
         from . import c01 as _c01d
         chk.rule('R15.10', 'dropping the old values of an option under CFGF_RESET keeps its annotation: the mark is cleared after the release, not before (rule R10.4 of C10)')
         _c01d.defaults_dropped_under_reset(c, chk, 'R15.10')
+        # R15.12: "the annotation is the comment's text, trimmed": what a comment rule of the scanner hands over is what the
+        # reference table says (rule R3.5 of C03: marker skipped, text copied whole, terminated, trimmed at both ends)
+        from . import c03 as _c03c
+        chk.rule('R15.12', 'the comment token carries the comment text as the reference table has it (rule R3.5 of C03): the annotation is that text, without marker and surrounding blanks')
+        sub3 = report.SubCheck(chk, 'R15.12', 'C03', only=('R3.5',))
+        _c03c.run(c, sub3)
+        sub3.done('comment text')
     marker_only(c, chk)
     attach_function(c, chk)
     printer_emits(c, chk)
